@@ -99,7 +99,7 @@ def run_case(case):
     viol = []
     spill = case['spill']
     if spill:
-        nkeys = rng.choice([10300, 12000])
+        nkeys = rng.choice([10240, 10241, 10300, 12000])
         ns = nkeys + rng.randint(0, 3000)
         nt = 200
     else:
